@@ -34,6 +34,23 @@ import typing  # noqa: E402
 TupleOfInt = typing.Tuple[int, ...]
 
 
+def _make_event(version: int) -> Any:
+    """Two distinct model classes with the same module, name and qualname (factory-made)."""
+    if version == 1:
+        class Event(pydantic.BaseModel):
+            id: int
+    else:
+        class Event(pydantic.BaseModel):  # type: ignore[no-redef]
+            id: int
+            tags: typing.List[str] = []
+            retries: int = 3
+    return Event
+
+
+EventV1 = _make_event(1)
+EventV2 = _make_event(2)
+
+
 def the_dep() -> str:
     return "DEP-VALUE"
 
@@ -63,9 +80,10 @@ META = {
     "bounds": {"quick": {"max_params": 3, "kw_tail": "<=1 for <=2 params"}, "thorough": {"max_params": 4, "kw_tail": "<=2"}},
 }
 
+TWIN = "VW"  # V / W: two distinct classes with identical repr (only used in the dedicated twin signatures)
 FRONT = "uAisMDfTN"  # kinds without default (f float, T Tuple[int, ...], N model whose fields all have defaults)
 BACK = "dPC"  # kinds with default (annotated default, dependency, Context)
-ANNOT = {"u": None, "A": "Any", "i": "int", "s": "str", "M": "Model", "D": "DC", "d": "int", "f": "float", "T": "TupleOfInt", "N": "ModelAllDefaults"}
+ANNOT = {"u": None, "A": "Any", "i": "int", "s": "str", "M": "Model", "D": "DC", "d": "int", "f": "float", "T": "TupleOfInt", "N": "ModelAllDefaults", "V": "EventV1", "W": "EventV2"}
 
 
 def signatures(tier: str) -> List[Tuple[str, str]]:
@@ -85,6 +103,8 @@ def signatures(tier: str) -> List[Tuple[str, str]]:
                     for t in tails:
                         if pos or t:
                             out.append((pos, t))
+    # same-named distinct types (state shared between calls through any annotation-keyed cache)
+    out += [("V", ""), ("W", ""), ("VW", ""), ("WV", ""), ("iW", ""), ("Vu", ""), ("W", "I")]
     return out
 
 
@@ -96,7 +116,7 @@ def build_function(pos: str, tail: str, rec: List[Any]) -> Any:
         names.append(nm)
         if k == "u":
             params.append(nm)
-        elif k in "AisMDfTN":
+        elif k in "AisMDfTNVW":
             params.append(f"{nm}: {ANNOT[k]}")
         elif k == "d":
             params.append(f"{nm}: int = 5")
@@ -111,7 +131,7 @@ def build_function(pos: str, tail: str, rec: List[Any]) -> Any:
             names.append(nm)
             params.append(f"{nm}: int" if k == "I" else nm)
     src = f"async def gen_task({', '.join(params)}):\n    _rec.append(dict({', '.join(f'{n}={n}' for n in names)}))\n    return None\n"
-    ns = {"_rec": rec, "Any": Any, "Model": Model, "DC": DC, "TupleOfInt": TupleOfInt, "ModelAllDefaults": ModelAllDefaults, "TaskiqDepends": TaskiqDepends, "the_dep": the_dep,
+    ns = {"_rec": rec, "Any": Any, "Model": Model, "DC": DC, "TupleOfInt": TupleOfInt, "ModelAllDefaults": ModelAllDefaults, "EventV1": EventV1, "EventV2": EventV2, "TaskiqDepends": TaskiqDepends, "the_dep": the_dep,
           "Context": Context, "__name__": "mc.props.c08"}
     exec(src, ns)  # noqa: S102
     fn = ns["gen_task"]
@@ -126,6 +146,15 @@ def value_for(kind: str, scheme: str, j: int) -> Any:
     if scheme == "falsy":
         # falsy but not None: conversion must still happen (0 -> 0.0, [] -> (), {} -> model with defaults)
         return {"i": 0, "d": 0, "I": 0, "f": 0, "s": "", "M": {}, "D": {}, "N": {}, "T": []}.get(kind, [])
+    if kind in "VW":
+        if scheme in ("nonconv",):
+            return {"id": f"bad{j}"}
+        base = {"id": str(j + 5) if scheme in ("conv", "alt") else j + 5}
+        if kind == "W":
+            base.update({"tags": [f"t{j}"], "retries": 9})
+        if scheme == "inst":
+            return (EventV1 if kind == "V" else EventV2)(**base)
+        return base
     if kind in "fTN":
         if scheme in ("conv", "alt") and (scheme == "conv" or j % 2 == 0):
             return {"f": str(j) + ".5", "T": [str(j), j + 1], "N": {"n": str(j)}}[kind]
@@ -175,7 +204,7 @@ def wire_form(v: Any) -> Any:
     return v
 
 
-ANNOT_OBJ = {"A": Any, "i": int, "s": str, "M": Model, "D": DC, "d": int, "I": int, "f": float, "T": TupleOfInt, "N": ModelAllDefaults}
+ANNOT_OBJ = {"A": Any, "i": int, "s": str, "M": Model, "D": DC, "d": int, "I": int, "f": float, "T": TupleOfInt, "N": ModelAllDefaults, "V": EventV1, "W": EventV2}
 _ADAPTERS: Dict[Any, Any] = {}
 
 
@@ -298,7 +327,7 @@ def run_signature(sig: Tuple[str, str], acc: Acc, sers: List[str]) -> None:
                                 continue
                             elif nm in bound.arguments:
                                 want = expected_value(k, bound.arguments[nm], validate)
-                                if validate and k in "isMDdIfTN" and want != wire_form(bound.arguments[nm]):
+                                if validate and k in "isMDdIfTNVW" and want != wire_form(bound.arguments[nm]):
                                     acc.count("converted_params")
                             else:
                                 want = 5  # omitted defaulted parameter
@@ -333,7 +362,7 @@ def run_signature(sig: Tuple[str, str], acc: Acc, sers: List[str]) -> None:
 def _sig_text(pos: str, tail: str) -> str:
     parts = []
     for j, k in enumerate(pos):
-        parts.append({"u": f"p{j}", "A": f"p{j}: Any", "i": f"p{j}: int", "s": f"p{j}: str", "M": f"p{j}: Model", "D": f"p{j}: DC",
+        parts.append({"V": f"p{j}: Event(v1)", "W": f"p{j}: Event(v2)", "u": f"p{j}", "A": f"p{j}: Any", "i": f"p{j}: int", "s": f"p{j}: str", "M": f"p{j}: Model", "D": f"p{j}: DC",
                       "f": f"p{j}: float", "T": f"p{j}: Tuple[int, ...]", "N": f"p{j}: ModelAllDefaults",
                       "d": f"p{j}: int = 5", "P": f"p{j}=Depends(dep)", "C": f"p{j}: Context=Depends()"}[k])
     if tail:
